@@ -3,6 +3,10 @@ package main
 import (
 	"fmt"
 	"net/http"
+	"os"
+	"path/filepath"
+	"strconv"
+	"strings"
 	"time"
 
 	"github.com/bolkedebruin/rdpgw/cmd/rdpgw/protocol"
@@ -81,9 +85,15 @@ func c09WebRun(prefix []int, rl *raceLog) vsched.RunResult {
 }
 
 func c09Web(env *Env, rep *Report, rl *raceLog, bound int) {
+	c09WebExplore(env, rep, rl, bound, "D7-download-vs-channel-create", c09WebRun)
+	c09WebExplore(env, rep, rl, bound, "D10-two-downloads-with-template", c09Web2Run)
+}
+
+func c09WebExplore(env *Env, rep *Report, rl *raceLog, bound int, name string, c09WebRun func([]int, *raceLog) vsched.RunResult) {
+	curScenario = name
 	a, bb := c09WebRun(nil, rl), c09WebRun(nil, rl)
 	if a.Outcome != bb.Outcome {
-		infra("D7 is not deterministic under replay: %q vs %q", a.Outcome, bb.Outcome)
+		infra("%s is not deterministic under replay: %q vs %q", name, a.Outcome, bb.Outcome)
 	}
 	a.Violations = append(a.Violations, bb.Violations...)
 	first := true
@@ -95,7 +105,7 @@ func c09Web(env *Env, rep *Report, rl *raceLog, bound int) {
 		return c09WebRun(p, rl)
 	}}
 	if err := ex.Explore(); err != nil {
-		infra("D7: %v", err)
+		infra("%s: %v", name, err)
 	}
 	rep.add("executions", int64(ex.Execs))
 	rep.add("transitions", int64(ex.Steps))
@@ -108,7 +118,7 @@ func c09Web(env *Env, rep *Report, rl *raceLog, bound int) {
 	}
 	for _, sig := range ex.FoundOrder {
 		f := ex.Found[sig]
-		rp := map[string]any{"engine": "vsched", "scenario": "D7-download-vs-channel-create", "choices": f.Choices}
+		rp := map[string]any{"engine": "vsched", "scenario": name, "choices": f.Choices}
 		if len(f.Detail) > 11 && f.Detail[:11] == "race-files=" {
 			for i := 11; i < len(f.Detail); i++ {
 				if f.Detail[i] == '\n' {
@@ -121,6 +131,77 @@ func c09Web(env *Env, rep *Report, rl *raceLog, bound int) {
 		rep.violate(f.Sig, f.Detail, rp)
 	}
 	if env.Shard == 0 {
-		rep.sample(map[string]any{"scenario": "D7-download-vs-channel-create", "executions_this_shard": ex.Execs, "default_schedule_outcome": a.Outcome})
+		rep.sample(map[string]any{"scenario": name, "executions_this_shard": ex.Execs, "default_schedule_outcome": a.Outcome})
 	}
+}
+
+// C09 driver D10: two logged-in browsers download their connection files at the same time from a gateway that
+// has an .rdp template configured (Client.Defaults): whatever the handler keeps between requests is shared.
+func c09TemplateFile() string {
+	f := filepath.Join(scratch(), "template.rdp")
+	os.WriteFile(f, []byte("audiomode:i:2\r\nkeyboardhook:i:1\r\nscreen mode id:i:1\r\n"), 0o644)
+	return f
+}
+
+func c09Web2Run(prefix []int, rl *raceLog) vsched.RunResult {
+	vclock.Reset()
+	hosts := []string{"ha.example:3389", "hb.example:3389"}
+	app := NewWebApp(WebCfg{Store: "cookie", HostSelection: "roundrobin", Hosts: hosts, TemplateFile: c09TemplateFile()})
+	now := time.Now()
+	var bs []*Browser
+	for i, u := range []string{"alice", "bob"} {
+		key := "d10-" + u
+		if _, ok := c13IDTokens[key]; !ok {
+			c13IDTokens[key] = app.IdP.IDToken(map[string]any{"iss": idpIssuer, "aud": "rdpgw", "sub": u, "exp": now.Add(time.Hour).Unix(), "iat": now.Unix(), "preferred_username": u}, false)
+		}
+		app.IdP.Codes[key] = CodeBehaviour{AccessToken: "at-" + u, IDToken: c13IDTokens[key]}
+		b := NewBrowser(fmt.Sprintf("10.0.0.%d:40000", i+1))
+		rec := b.Do(app, "GET", "/connect")
+		b.Do(app, "GET", "/callback?state="+StateOf(rec)+"&code="+key)
+		bs = append(bs, b)
+	}
+	files := make([][]string, 2)
+	x := vsched.Run(prefix, 20000, false, nil, func() {
+		NewWorld()
+		done := 0
+		for i := range bs {
+			i := i
+			vsched.Go("browser-"+strconv.Itoa(i), func() {
+				for k := 0; k < 2; k++ {
+					vsched.Point("before-download", func() bool { return true })
+					if r := bs[i].Do(app, "GET", "/connect"); r.Code == 200 {
+						files[i] = append(files[i], r.Body.String())
+					} else {
+						files[i] = append(files[i], fmt.Sprintf("status %d", r.Code))
+					}
+				}
+				done++
+			})
+		}
+		vsched.Point("join-browsers", func() bool { return done == 2 })
+	})
+	races := rl.drain()
+	var v []vsched.Violation
+	for _, r := range races {
+		v = append(v, vsched.Violation{Sig: "C09/race/" + r.Sig, Detail: "race-files=C09/race-files/" + r.Files + "\nD10-two-downloads-with-template\n" + r.Text})
+		if replaying {
+			v = append(v, vsched.Violation{Sig: "C09/race-files/" + r.Files, Detail: r.Text})
+		}
+	}
+	for _, p := range x.Panics() {
+		v = append(v, vsched.Violation{Sig: "C09/panic/" + shortFn(panicSite(p)) + "/D10", Detail: p.Value})
+	}
+	ok := 0
+	for i, u := range []string{"alice", "bob"} {
+		for _, f := range files[i] {
+			if strings.Contains(f, "username:s:"+u) && strings.Contains(f, "audiomode:i:2") && tokenClaims(rdpValue(f, "gatewayaccesstoken"))["sub"] == u {
+				ok++
+			} else {
+				v = append(v, vsched.Violation{Sig: "C09/connection-file-of-one-session-mixed-with-another/D10", Detail: fmt.Sprintf("file for %s: %.300q", u, f)})
+			}
+		}
+	}
+	x.Finish()
+	rl.drain()
+	return vsched.RunResult{X: x, Outcome: fmt.Sprintf("D10 good-files=%d", ok), Violations: v}
 }
